@@ -1,5 +1,5 @@
 CONSTANTS
   Tier = "thorough"
 SPECIFICATION Spec
-INVARIANTS ScalarLemma IupLemma CodecLemma FontOK EmitCase EmitLemma
+INVARIANTS ScalarLemma IupLemma CodecLemma FontOK FontOK2 EmitCase EmitCase2 EmitLemma
 CHECK_DEADLOCK FALSE
